@@ -345,21 +345,27 @@ func c01Run(c *mon.Ctx, csAny any) {
 		return
 	}
 
-	k := mon.BigH(cs.K)
-	s := mon.Scal(k)
+	var (
+		k *big.Int
+		s *secp256k1.Scalar
+	)
 
-	if cs.SMove != nil {
+	if cs.SMove == nil {
+		k = mon.BigH(cs.K)
+		s = mon.Scal(k)
+	} else {
 		c.Count("scalar-history")
 
-		s = mon.Scal(mon.BigH(cs.SMove.From))
-		_ = s.Bits()
-		secp256k1.Base().Multiply(s) // the old value drives a multiplication
+		var (
+			pan bool
+			pv  any
+		)
 
-		if pan, pv := mon.Call(func() { mon.ApplyScalarMove(s, *cs.SMove) }); pan {
-			if m, ok := pv.(string); ok && len(m) > 8 && m[:8] == "harness:" {
-				panic(m)
-			}
-
+		s, k, pan, pv = mon.MoveScalar(*cs.SMove, func(s *secp256k1.Scalar) {
+			_ = s.Bits()
+			secp256k1.Base().Multiply(s) // the old value drives a multiplication
+		})
+		if pan {
 			c.Fail(fmt.Sprintf("scalar mutator %s panicked: %v", cs.SMove.Via, pv), "multiply-history-panic", nil)
 
 			return
